@@ -62,10 +62,13 @@ func checkPlayableTable(body []*PathSum, accept func(ps *PathSum) bool) (bool, [
 		bad = append(bad, "the predicate does not look at "+strings.Join(missing, ", "))
 	}
 	enumGrid(ints, -1, 3, bools, nil, func(a Asg) bool {
-		row, err := selectPath(body, a)
+		row, err := selectBodyPath(body, a)
 		if err != "" {
 			bad = append(bad, "table self-check: "+err)
 			return false
+		}
+		if row == nil {
+			return true
 		}
 		got := accept(row)
 		want := a.B[bAct] && !a.B[bRes] && !a.B[bNil]
